@@ -166,6 +166,19 @@ def run(ctx):
                     # options of the algebra vary from session to session (rarely combined with registered functions)
                     add(u, rng.choice([{'wrapper': True}, {'wrapper': False}, {'wrapper': False}, {'cse': False}, {'symbolcls': 'sympy'},
                                        {'cse': False, 'wrapper': True}]), progs, hist)
+        # graded mode x registered functions: complete grade blocks as argument patterns (default bases only)
+        if not u['basis']:
+            blocks = [tuple(b_) for b_ in P.grade_blocks(d) if len(b_) <= 6]
+            gtrees = [t_ for t_ in PR.depth1_programs(2, d) if not PR.ops_in(t_) & {'norm', 'normalized', 'sqrt', 'outertan', 'inv', 'div', 'pow'}]
+            gtrees = rng.sample(gtrees, 16 if q else min(len(gtrees), 80))
+            for i in range(0, len(gtrees), 8):
+                progs, hist = {}, []
+                for j, t_ in enumerate(gtrees[i:i + 8]):
+                    progs[f'g{j}'] = {'tree': t_, 'nargs': 2, 'symbolic': False, 'pyname': f'g{j}'}
+                    for _ in range(2):
+                        hist.append({'t': 'T1', 'kind': 'prog', 'op': f'g{j}', 'args': [rng.choice(blocks), rng.choice(blocks)], 'params': [], 'mode': 'num'})
+                rng.shuffle(hist)
+                add(u, {'graded': True, 'wrapper': rng.random() < 0.3}, progs, hist)
         # deeper trees, 1..3 arguments
         for k in range(6 if q else 60):
             progs, hist = {}, []
